@@ -62,6 +62,10 @@ func main() {
 			prof = os.Args[2]
 		}
 		s := gen.Generate(run.Rand(1, uint64(idx)), fmt.Sprintf("%d", idx), gen.Opts{Profile: prof, Thorough: os.Getenv("VERIF_TIER") == "thorough"})
+		if len(os.Args) > 3 && os.Args[3] == "runtime" {
+			// the spec a runtime check (C02..C08, C14) draws at this index for this profile
+			s = gen.Generate(run.Rand(2, uint64(idx)), fmt.Sprintf("%d", idx), gen.Opts{Profile: prof, Runtime: true, Thorough: os.Getenv("VERIF_TIER") == "thorough"})
+		}
 		fmt.Println(dslprint.Func(s, "D"))
 		return
 	case "gen-sample":
